@@ -185,6 +185,10 @@ func (w *World) Violate(prop, oracle, sig, format string, a ...any) {
 		}
 	}
 	w.res.Violations = append(w.res.Violations, Violation{prop, oracle, sig, d, w.Net.Now().Seconds()})
+	if os.Getenv("VERIF_DUMP_ON_VIOLATION") != "" && len(w.res.Violations) == 1 {
+		buf := make([]byte, 16<<20)
+		os.Stderr.Write(buf[:runtime.Stack(buf, true)])
+	}
 	w.Net.Logf("VIOLATION %s %s %s", prop, oracle, sig)
 }
 
